@@ -94,6 +94,28 @@ def free_param_docs():
             if pid == "const-bounded":   # a non-const value parameter is a variable: no accepted twin exists for it
                 bound = X.nta(g, [tpl(params=ptype, decl=decl)], "P = T(1); system P;")
                 out.append(("free-param:%s:%s" % (pid, eid), "bound-twin", bound))
+    # the free parameter reaches a size only through the initialiser of a template-local constant of a composite type
+    # (arrays, records, arrays of records, chains of those), in an array size, a range bound used as an index type and a scalar-set size
+    g = GDECL + "typedef struct { int a; int b; } R2;\n"
+    CHAINS = [
+        ("const-array", "const int DIM[2] = {p, p + 1};", "DIM[1]"),
+        ("const-array-2d", "const int D2[2][2] = {{p, 1}, {1, p}};", "D2[0][0] + 1"),
+        ("const-array-then-scalar-const", "const int DIM[2] = {1, p}; const int c = DIM[1] + 1;", "c"),
+        ("typedef-array-const", "typedef int A2[2]; const A2 ta = {p, 1};", "ta[0] + 1"),
+        ("const-record", "const R2 rc = {p, 1};", "rc.a + 1"),
+        ("const-array-of-records", "const R2 ra[2] = {{p, 1}, {1, 1}};", "ra[0].a + 1"),
+        ("const-record-then-const-array", "const R2 rc = {1, p}; const int DA[2] = {rc.b, 1};", "DA[0] + 1"),
+        ("scalar-const-chain", "const int c1 = p; const int c2 = c1 + 1;", "c2"),
+    ]
+    SINKS = [("array-size", "int arr[%s];"), ("index-type", "typedef int[0, %s] it; int arr[it];"), ("scalar-set-size", "typedef scalar[%s] ss; ss sv;"),
+             ("two-dimensional", "int arr[2][%s];")]
+    for cid, chain, e in CHAINS:
+        for sid, sink in SINKS:
+            decl = chain + " " + (sink % e)
+            key = "free-param-via:%s:%s" % (cid, sid)
+            out.append((key, "free", X.nta(g, [tpl(params="const int[0,1] p", decl=decl)], "system T;")))
+            out.append((key, "free", X.nta(g, [tpl(params="const int[0,1] p", decl=decl)], "Q(const int[0,1] k) = T(k); system Q;")))
+            out.append((key, "bound-twin", X.nta(g, [tpl(params="const int[0,1] p", decl=decl)], "P = T(1); system P;")))
     # template parameters that are constant in type but not known at compile time (const reference, const double), read
     # directly and through template-local functions, in the compile-time contexts of the template itself
     for pid, ptype, arg, gdecl in (("const-ref", "const int &r", "k", ""), ("const-double", "const double r", "1.5", ""),
